@@ -38,12 +38,18 @@ def same(a, b):
 def run(R):
     R.rule = RULE
     rng = R.rng
-    n = 10 if R.tier == "quick" else 300
+    # stratified design: every (type, method) pair occurs; storage/encoding/dtype vary at random
+    design = [(t, m) for t in (None, "image", "segmentation") for m in (None, "average", "majority", "stride")]
+    rng.shuffle(design)
+    n = 48 if R.tier == "quick" else 600
     for i in range(n):
-        _one(R, rng, i)
+        t, m = design[i % len(design)]
+        # most runs in-process (the command's main() return value is the exit status); sharded runs and
+        # every 9th run as real subprocesses
+        _one(R, rng, i, t, m, subproc=(i % 9 == 4))
 
 
-def _one(R, rng, i):
+def _one(R, rng, i, dtype_opt, method, subproc):
     d = os.path.join(R.tmp, f"w{i}")
     os.makedirs(d)
     shape = [rng.randrange(1, 7) for _ in range(3)]
@@ -61,12 +67,13 @@ def _one(R, rng, i):
     nii = os.path.join(d, "v.nii")
     pipeline.write_nifti(nii, arr)
 
-    dtype_opt = rng.choice([None, "image", "segmentation"])
     enc = "compressed_segmentation" if dt in ("uint32", "uint64") and rng.random() < 0.5 else None
-    method = rng.choice([None, "average", "majority", "stride"])
     if dt == "uint64" and method in (None, "average") and dtype_opt != "segmentation":
-        method = "stride"         # uint64 averaging is the C07 finding; kept out of C19
-    storage = rng.choice(["deep-gz", "flat", "flat-gz", "deep", "sharded"])
+        dt = "uint32"             # uint64 averaging is the C07 finding; kept out of C19
+        arr = (arr % (2 ** 32)).astype(dt)
+        pipeline.write_nifti(nii, arr)
+    storage = rng.choice(["deep-gz", "flat", "flat-gz", "deep", "deep-gz", "flat", "sharded"])
+    inproc = not subproc and storage != "sharded"
     common, acc = [], {}
     if "flat" in storage:
         common.append("--flat")
@@ -77,6 +84,8 @@ def _one(R, rng, i):
     sharding = rng.choice(["1,1,0", "2,0,1", "0,1,0"]) if storage == "sharded" else None
     ds_opts = (["--downscaling-method", method] if method else [])
     te_opts = (["--type", dtype_opt] if dtype_opt else []) + (["--encoding", enc] if enc else [])
+    R.count(f"type={dtype_opt}:method={method}")
+    R.count("subprocess" if not inproc else "in-process")
     case = {"shape": shape, "data_type": dt, "channels": nch, "type": dtype_opt, "encoding": enc,
             "method": method, "storage": storage, "sharding": sharding}
 
@@ -87,7 +96,7 @@ def _one(R, rng, i):
         # the all-in-one command has no --sharding option: only the step-by-step half is exercised
         rcA, soA, seA = None, "", ""
     else:
-        rcA, soA, seA = _run_pyramid(a_args, sharding)
+        rcA, soA, seA = pipeline.run_script("volume_to_precomputed_pyramid", a_args, inprocess=inproc)
     # ---- step by step
     B = os.path.join(d, "B")
     steps = [("volume_to_precomputed", ["--generate-info", nii, B] + (["--sharding", sharding, "--no-gzip"] if sharding else [])),
@@ -97,7 +106,7 @@ def _one(R, rng, i):
              ("scale_stats", [B])]
     rcs = []
     for name, args in steps:
-        rc, so, se = pipeline.run_script(name, args, inprocess=False)
+        rc, so, se = pipeline.run_script(name, args, inprocess=inproc)
         rcs.append((name, rc, se[-300:] if rc else ""))
     okB = all(rc in (0, 4) for _n, rc, _e in rcs)
     R.count(f"{storage}:A={'ok' if rcA == 0 else 'fail'}:B={'ok' if okB else 'fail'}")
@@ -149,7 +158,7 @@ def _one(R, rng, i):
     # ---- repeat data-writing steps on their own output
     if storage != "sharded":
         for name, args in (steps[2], steps[3], steps[3]):
-            rc, so, se = pipeline.run_script(name, args, inprocess=False)
+            rc, so, se = pipeline.run_script(name, args, inprocess=inproc)
             if rc != 0:
                 R.violation(f"repeating {name} on its own output failed", case, {"rc": rc, "stderr": se[-300:]})
                 return
@@ -160,7 +169,7 @@ def _one(R, rng, i):
         # convert-chunks onto a fresh copy with --copy-info, twice
         C = os.path.join(d, "C")
         for _ in range(2):
-            rc, so, se = pipeline.run_script("convert_chunks", [B, C, "--copy-info"] + common, inprocess=False)
+            rc, so, se = pipeline.run_script("convert_chunks", [B, C, "--copy-info"] + common, inprocess=inproc)
             if rc != 0:
                 # second run: info exists -> refusal to overwrite is acceptable only if reported as failure
                 break
@@ -172,10 +181,6 @@ def _one(R, rng, i):
         except Exception as e:  # noqa: BLE001
             R.violation("convert-chunks --copy-info output unreadable", case, {"exc": f"{type(e).__name__}: {e}"[:200]})
     shutil.rmtree(d, ignore_errors=True)
-
-
-def _run_pyramid(args, sharding):
-    return pipeline.run_script("volume_to_precomputed_pyramid", args, inprocess=False)
 
 
 def _complete(R, case, base, info, scales, which):
